@@ -1,0 +1,27 @@
+//! Named yield / kill points, compiled in only with the cargo feature `verif`.
+//!
+//! A verification harness installs a callback; pocket-db calls it at the named points of
+//! store creation and of the write path. Without a callback a point does nothing.
+
+use std::sync::RwLock;
+
+type Callback = Box<dyn Fn(&'static str) + Send + Sync>;
+
+static CALLBACK: RwLock<Option<Callback>> = RwLock::new(None);
+
+/// Install the callback invoked at every point (replacing any previous one)
+pub fn install(cb: Callback) {
+    *CALLBACK.write().unwrap() = Some(cb);
+}
+
+/// Remove the callback
+pub fn clear() {
+    *CALLBACK.write().unwrap() = None;
+}
+
+/// A named point
+pub fn point(name: &'static str) {
+    if let Some(cb) = CALLBACK.read().unwrap().as_ref() {
+        cb(name);
+    }
+}
